@@ -27,7 +27,7 @@ use rustc_middle::mir::{
     self, AggregateKind, BasicBlockData, Body, Const, Operand, Place, ProjectionElem, Rvalue,
     StatementKind, TerminatorKind, UnwindAction,
 };
-use rustc_middle::ty::print::{with_no_trimmed_paths, with_resolve_crate_name};
+use rustc_middle::ty::print::{with_no_trimmed_paths, with_no_visible_paths, with_resolve_crate_name};
 use rustc_middle::ty::{self, Instance, Ty, TyCtxt, TypingEnv};
 use rustc_span::{ExpnKind, Span};
 
@@ -89,7 +89,28 @@ impl Callbacks for Extract {
 }
 
 fn path_of(tcx: TyCtxt<'_>, did: DefId) -> String {
-    with_no_trimmed_paths!(with_resolve_crate_name!(tcx.def_path_str(did)))
+    // Items of the workspace's own crates are always named by their real definition path (never by a
+    // re-export), so that keys agree between the crate that defines and the crate that uses an item.
+    // (rustc prints *extern* items by their visible path; local items are printed by definition path.)
+    let cname = tcx.crate_name(did.krate);
+    if did.is_local() || !cname.as_str().starts_with("des") {
+        return with_no_trimmed_paths!(with_resolve_crate_name!(tcx.def_path_str(did)));
+    }
+    if matches!(tcx.def_kind(did), DefKind::AssocFn | DefKind::AssocConst { .. } | DefKind::AssocTy) {
+        if let Some(imp) = tcx.trait_impl_of_assoc(did) {
+            let self_ty = tcx.type_of(imp).instantiate_identity().skip_norm_wip();
+            if let (ty::Adt(def, _), Some(tr)) = (self_ty.kind(), tcx.impl_opt_trait_ref(imp)) {
+                let tr = tr.instantiate_identity().skip_norm_wip();
+                let adt = with_no_visible_paths!(with_no_trimmed_paths!(with_resolve_crate_name!(
+                    tcx.def_path_str(def.did())
+                )));
+                let trp = path_of(tcx, tr.def_id);
+                let name = tcx.opt_item_name(did).map(|s| s.to_string()).unwrap_or_default();
+                return format!("<{} as {}>::{}", adt, trp, name);
+            }
+        }
+    }
+    with_no_visible_paths!(with_no_trimmed_paths!(with_resolve_crate_name!(tcx.def_path_str(did))))
 }
 
 fn ty_str(ty: Ty<'_>) -> String {
